@@ -114,7 +114,7 @@ func scenC13(w *vsim.World, spec *vsim.Spec) {
 	for i := 0; i < nworkers; i++ {
 		i := i
 		prefix := fmt.Sprintf("w%d_", i)
-		ns := mkNamespace(odd, prefix)
+		ns := c13Namespace(odd, prefix)
 		m := &mfs{root: newDir()}
 		for _, d := range base.dirs {
 			dir, name := splitPath(d)
@@ -200,7 +200,7 @@ func scenC13(w *vsim.World, spec *vsim.Spec) {
 		var rops []rop
 		for len(rops) < 40 && w.Choose(fmt.Sprintf("r%d-more", rd), 10) != 0 {
 			wi := w.Choose(fmt.Sprintf("r%d-worker", rd), nworkers)
-			ns := mkNamespace(odd, fmt.Sprintf("w%d_", wi))
+			ns := c13Namespace(odd, fmt.Sprintf("w%d_", wi))
 			rops = append(rops, rop{ns.files[w.Choose(fmt.Sprintf("r%d-path", rd), len(ns.files))], w.Choose(fmt.Sprintf("r%d-off", rd), 4*blk+2), 1 + w.Choose(fmt.Sprintf("r%d-n", rd), 3*blk+1)})
 		}
 		w.Spawn(fmt.Sprintf("reader%d", rd), func() {
@@ -423,4 +423,25 @@ func fmtOps(ops []porcupine.Operation) string {
 		}
 	}
 	return strings.Join(s, " ")
+}
+
+// c13Namespace keeps each worker's files few (2 names x 3 directories) so that readers of
+// other workers' files usually find them, while the shared directory set stays the full one.
+func c13Namespace(odd bool, prefix string) namespace {
+	full := mkNamespace(odd, prefix)
+	ns := namespace{dirs: full.dirs}
+	names := []string{prefix + "a", prefix + "b"}
+	if odd {
+		names = []string{prefix + "sp ace", prefix + "back\\slash"}
+	}
+	for _, d := range []string{"", full.dirs[0], full.dirs[0] + "/s"} {
+		for _, n := range names {
+			if d == "" {
+				ns.files = append(ns.files, n)
+			} else {
+				ns.files = append(ns.files, d+"/"+n)
+			}
+		}
+	}
+	return ns
 }
